@@ -170,15 +170,18 @@ Theorem C08_utf8_register : forall cs, line_valid cs -> valid (flat cs).
 Proof. exact flat_valid. Qed.
 Print Assumptions C08_utf8_register.
 (* ---------- C08_refines (PARTIAL) ---------- *)
-(* x, X and D (with any count and plain register) against the declarative one-line reference of ViDefs.v
-   (ref_span / ref_line_delete: x removes [o, min (o+n) len), X removes [max (o-n) 0, o), D removes [o, len) of
-   the body of the cursor line): the interpreter's buffer, register, cursor row and cursor offset are the
-   reference's, for every well-formed buffer and valid cursor.
-   MISSING (hence _partial): the remaining commands of the design list -- C s S Y J r ~ g~ gu gU < >, p P and the
-   inserts -- are only mirrored (and tied to the independent reference Ref8 and to the code by the
-   correspondence run), not related to a smaller reference; the sticky column / window top are not part of
-   the statement *)
-Theorem C08_refines_partial : forall rows e k y cnt e1 body, plain_reg y ->
+(* Full statement aimed at (DESIGN section 6): for every program of x X D C s S Y J r ~ g~ gu gU < > p P and inserts,
+   text, cursor and registers of the interpreter equal those of a smaller declarative reference.
+   PROVED below, each for every well-formed buffer, valid cursor and count: x X D (C08_refines_x_X_D_partial), ~
+   (C08_refines_tilde_partial), r (C08_refines_replace_partial), p P of one-line character-wise text and of
+   line-wise text (C08_refines_put_chars_partial, C08_refines_put_lines_partial), i a with plain typed text
+   (C08_refines_insert_plain_partial).  The references are the small functions ref_span, ref_line_delete,
+   ref_tilde, ref_replace, ref_put_off, ref_put_row, ref_ins_off of ViDefs.v on the BODY of the cursor line.
+   MISSING: C s S Y J g~ gu gU < > with arbitrary motions, I A o O, inserts containing editing keys, newlines or only
+   blanks (autoindent), puts of character-wise text containing a newline, and the composition over whole
+   programs; the sticky column and the window top are not part of the statements.  Those commands are mirrored
+   only and tied to the independent reference Ref8 and to the code by the correspondence run. *)
+Theorem C08_refines_x_X_D_partial : forall rows e k y cnt e1 body, plain_reg y ->
   let b := s_buf e in let s := s_vs e in
   buf_wf b -> cursor_ok b (v_row s) (v_off s) -> getl b (v_row s) = Some (body ++ [nlc]) -> 0 <= cnt ->
   exec1 rows (lcmd k y cnt) e = Some e1 ->
@@ -188,7 +191,72 @@ Theorem C08_refines_partial : forall rows e k y cnt e1 body, plain_reg y ->
   reg_get (s_regs e1) y = Some (flat del, false) /\
   v_row (s_vs e1) = v_row s /\ v_off (s_vs e1) = ren_noeol (Some (nb ++ [nlc])) a.
 Proof. exact refines_line_deletes. Qed.
-Print Assumptions C08_refines_partial.
+Print Assumptions C08_refines_x_X_D_partial.
+(* ~ with a count: the case of [o, min (o+n) len) is flipped (ASCII letters only), registers untouched, the cursor
+   goes to the end of the span (clamped to the last character) *)
+Theorem C08_refines_tilde_partial : forall rows e cnt e1 body,
+  let b := s_buf e in let s := s_vs e in
+  buf_wf b -> cursor_ok b (v_row s) (v_off s) -> getl b (v_row s) = Some (body ++ [nlc]) -> 0 <= cnt ->
+  exec1 rows (c_tilde cnt) e = Some e1 ->
+  let z := Z.min (v_off s + Z.max 1 cnt) (Z.of_nat (length body)) in
+  let nb := ref_tilde body (v_off s) z in
+  s_buf e1 = set_row b (v_row s) [nb ++ [nlc]] 1 /\ s_regs e1 = s_regs e /\
+  v_row (s_vs e1) = v_row s /\ v_off (s_vs e1) = ren_noeol (Some (nb ++ [nlc])) z.
+Proof. exact refines_tilde. Qed.
+Print Assumptions C08_refines_tilde_partial.
+(* r<c> with a count (c not a newline): n characters from the cursor are replaced and the cursor goes to the last
+   of them, when the line has n characters from the cursor on; otherwise nothing changes *)
+Theorem C08_refines_replace_partial : forall rows e cnt cs e1 body,
+  let b := s_buf e in let s := s_vs e in
+  buf_wf b -> cursor_ok b (v_row s) (v_off s) -> getl b (v_row s) = Some (body ++ [nlc]) -> 0 <= cnt -> b0 cs <> 10%N ->
+  exec1 rows (CReplace cnt cs) e = Some e1 ->
+  let n := Z.max 1 cnt in let o := v_off s in
+  s_regs e1 = s_regs e /\ v_row (s_vs e1) = v_row s /\
+  if o + n <=? Z.of_nat (length body)
+  then s_buf e1 = set_row b (v_row s) [ref_replace body o n cs ++ [nlc]] 1 /\ v_off (s_vs e1) = o + n - 1
+  else s_buf e1 = b /\ v_off (s_vs e1) = o.
+Proof. exact refines_replace. Qed.
+Print Assumptions C08_refines_replace_partial.
+(* p / P with a count of a character-wise register holding non-empty valid text without a newline: the text goes
+   n times after (p, unless the line is empty) / before (P) the cursor character, the cursor lands on its last character *)
+Theorem C08_refines_put_chars_partial : forall rows e y cnt after cs body,
+  let b := s_buf e in let s := s_vs e in
+  buf_wf b -> cursor_ok b (v_row s) (v_off s) -> getl b (v_row s) = Some (body ++ [nlc]) -> 0 <= cnt ->
+  reg_get (s_regs e) y = Some (flat cs, false) -> line_valid cs -> cs <> [] -> Forall (fun c : chr => b0 c <> 10%N) cs ->
+  let e1 := exec_put rows e y cnt after in
+  let n := Z.to_nat (Z.max 1 cnt) in
+  let off := ref_put_off body (v_off s) after in
+  s_buf e1 = set_row b (v_row s) [firstn (Z.to_nat off) body ++ repeat_app n cs ++ skipn (Z.to_nat off) body ++ [nlc]] 1 /\
+  s_regs e1 = s_regs e /\ v_row (s_vs e1) = v_row s /\ v_off (s_vs e1) = off + Z.of_nat (length cs) * Z.of_nat n - 1.
+Proof. exact refines_put_chars. Qed.
+Print Assumptions C08_refines_put_chars_partial.
+(* p / P with a count of a line-wise register holding the well-formed valid lines ls: they go n times below (p) /
+   above (P) the cursor row of a non-empty buffer; the cursor is on the first of them, at its indentation *)
+Theorem C08_refines_put_lines_partial : forall rows e y cnt after ls l0,
+  let b := s_buf e in let s := s_vs e in
+  getl b (v_row s) = Some l0 ->
+  reg_get (s_regs e) y = Some (flat (concat ls), true) -> buf_wf ls -> buf_valid ls -> ls <> [] ->
+  let e1 := exec_put rows e y cnt after in
+  let n := Z.to_nat (Z.max 1 cnt) in
+  let r' := ref_put_row (v_row s) after in
+  s_buf e1 = firstn (Z.to_nat r') b ++ repeat_app n ls ++ skipn (Z.to_nat r') b /\
+  s_regs e1 = s_regs e /\ v_row (s_vs e1) = r' /\
+  v_off (s_vs e1) = ren_noeol (getl (s_buf e1) r') (lbuf_indents (s_buf e1) r').
+Proof. exact refines_put_lines. Qed.
+Print Assumptions C08_refines_put_lines_partial.
+(* i / a typing plain text (no editing key, no newline) that contains a non-blank: exactly that text is inserted before
+   (i) / after (a, unless the line is empty) the cursor character -- whatever the autoindent split of the line's
+   leading blanks -- and the cursor lands on its last character *)
+Theorem C08_refines_insert_plain_partial : forall rows e (append : bool) typed e1 body,
+  let b := s_buf e in let s := s_vs e in
+  buf_wf b -> cursor_ok b (v_row s) (v_off s) -> getl b (v_row s) = Some (body ++ [nlc]) ->
+  forallb plain_key typed = true -> existsb (fun c => negb (is_blankc c)) typed = true ->
+  exec1 rows (CIns (if append then Ia else Ii) typed) e = Some e1 ->
+  let off := ref_ins_off body (v_off s) append in
+  s_buf e1 = set_row b (v_row s) [firstn (Z.to_nat off) body ++ typed ++ skipn (Z.to_nat off) body ++ [nlc]] 1 /\
+  s_regs e1 = s_regs e /\ v_row (s_vs e1) = v_row s /\ v_off (s_vs e1) = off + slen typed - 1.
+Proof. exact refines_insert_plain. Qed.
+Print Assumptions C08_refines_insert_plain_partial.
 Local Open Scope N_scope.
 
 Example C08_nonvacuous :
